@@ -144,6 +144,8 @@ type pinterp struct {
 	undecided     func(pos token.Pos, what string)
 	noReturn      func(call *ast.CallExpr) bool
 	noFlags       bool // do not track boolean locals (path-insensitive)
+	// dropReturn: returns that end the path without being an outcome of interest (e.g. error returns)
+	dropReturn func(ret *ast.ReturnStmt) bool
 	// exhaustive reports that a switch without default covers every value its tag can take.
 	exhaustive func(sw *ast.SwitchStmt) bool
 	steps         int
@@ -346,6 +348,9 @@ func (p *pinterp) stmt(st ast.Stmt, in pset, label string) *pout {
 			out.normal.add(ns)
 		}
 	case *ast.ReturnStmt:
+		if p.dropReturn != nil && p.dropReturn(x) {
+			return out
+		}
 		for _, s := range in {
 			if ns, ok := p.apply(s.clone(), x); ok {
 				out.ret.add(ns)
